@@ -279,6 +279,40 @@ def run(ctx):
         else:
             ctx.bad('C15.5-variant-shapes', name, 'variant is serialised as %s, deserialize_enum accepts %s' % (sorted(top), sorted(enum_acc)), key='TABLE:serde:%s' % name)
 
+    # the atom that names the variant is made from the variant's name, in this call
+    ctx.rule('C15.5-variant-atom-from-name', 'in every variant serialiser the atom that tags the value is Atom::new applied to the variant name handed in by serde (or to the name stored in the compound serialiser): '
+             'an atom taken from anywhere else - a memo keyed by enum name and index - can be the atom of a variant of another enum of the same name', floor=4)
+    for name, (fn, want) in shapes.items():
+        B = P.B(fn)
+        if B is None:
+            continue
+        atoms = [(bb, st) for bb, j, st in B.stmts() if st['k'] == '=' and st['rv']['k'] == 'agg' and st['rv'].get('adt') == OWNED and st['rv'].get('var') == 'Atom' and bb in B.live_blocks()]
+        if not ctx.anchor(bool(atoms), fn + ': OwnedTerm::Atom literal'):
+            continue
+        for bb, st in atoms:
+            o = unwrap(B.origin(st['rv']['ops'][0]))[0]
+            good, why = False, str(o)[:80]
+            if o is not None and o[0] == 'call' and str(o[1]) == 'erltf::types::Atom::new':
+                ct = B.blocks[o[2]]['t']
+                ao = unwrap(B.origin(ct['args'][0]))
+                base, projs = ao
+                if base is not None and base[0] == 'arg':
+                    nm_ = B.local_name(base[1]) if isinstance(base[1], int) else ''
+                    fl = [p_ for p_ in list(base[2]) + list(projs) if p_ not in ('deref', '*')]
+                    if nm_ == 'variant' and not fl:
+                        good = True
+                    elif nm_ == 'self' and fl and str(fl[-1]).endswith('name'):
+                        good = True
+                    else:
+                        why = 'Atom::new(%s%s)' % (nm_, ''.join('.' + str(x) for x in fl))
+                else:
+                    why = 'Atom::new(%s)' % (str(base)[:60],)
+            if good:
+                ctx.ok('C15.5-variant-atom-from-name', name, 'Atom::new(variant name)', ctx.where(B, bb))
+            else:
+                ctx.bad('C15.5-variant-atom-from-name', name, 'the tag atom of the %s comes from %s, not from Atom::new of the variant name given for this value: the name written can be that of another variant' % (name.replace('_', ' '), why),
+                        ctx.where(B, bb), key='PROV:serde:%s:tag-atom' % name)
+
     # ---------------- CAST / PANIC in de.rs -------------------------------------------------------------------------------------------
     ctx.rule('C15.6-de-safety', 'no unguarded narrowing cast and no panic-capable site in the deserialiser', floor=3)
     for p in sorted(ctx.F.bodies):
@@ -457,10 +491,10 @@ def run(ctx):
     # to_bytes goes through the term encoder: what it writes for lengths and counts must be what is there
     if type(ctx).__name__ != 'SubCtx':
         ctx.rule('C15.2-encoder-counts', 'the byte path of the serde layer is the term encoder and decoder: every length / arity / count the encoder writes in a narrower width is range-guarded, every emitted layout is the one the decoder reads '
-                 '(rules C01.3-no-truncation and C01.2-writer-vs-reader re-run): a sequence of exactly 65536 small integers must not be written with a 16-bit count of 0', floor=10)
+                 'and the bytes returned are those of a buffer of that call (rules C01.3-no-truncation, C01.2-writer-vs-reader, C01.1-own-buffer, C01.2-elements-written re-run): a sequence of exactly 65536 small integers must not be written with a 16-bit count of 0', floor=10)
         from ..order import SubCtx as _Sub15
         from . import c01 as _c01
-        _c01.run(_Sub15(ctx, 'C15.2-encoder-counts', 'c01', allow=('C01.3-no-truncation', 'C01.2-writer-vs-reader')))
+        _c01.run(_Sub15(ctx, 'C15.2-encoder-counts', 'c01', allow=('C01.3-no-truncation', 'C01.2-writer-vs-reader', 'C01.1-own-buffer', 'C01.2-elements-written')))
 
     # the derived Serialize writes a module atom; the derived Deserialize must insist on that very atom
     ctx.rule('C15.7-derive-module-name', '#[derive(ElixirStruct)] hands the same module-name string to the generator of Serialize (which writes it as __struct__) and to the generator of Deserialize (which compares __struct__ with it): '
